@@ -34,7 +34,8 @@ fn arr16(b: &[u8]) -> [u8; 16] {
 impl EC {
     fn words(&self) -> Vec<u32> {
         let l = ((self.length as u64 + 31) / 32) as usize + self.surplus as usize;
-        let rnd: Vec<u32> = expand_bytes(self.seed, l * 4).chunks(4).map(|c| u32::from_be_bytes([c[0], c[1], c[2], c[3]])).collect();
+        // the pseudo-random words are only produced for the content kinds that use them (a 2^27-word message would otherwise cost seconds)
+        let rnd: Vec<u32> = if matches!(self.content % 7, 0 | 5) { expand_bytes(self.seed, l * 4).chunks(4).map(|c| u32::from_be_bytes([c[0], c[1], c[2], c[3]])).collect() } else { Vec::new() };
         let mut out = self.words_by_content(l, rnd);
         for (o, e) in out.iter_mut().zip(self.explicit.iter()) {
             *o = *e;
@@ -118,6 +119,39 @@ pub fn check_eea(c: &EC) -> CaseResult {
     mask_beyond(&mut orig, c.length);
     ensure!(twice == orig, "entry=EEA::encrypt outcome=not-an-involution", "LENGTH={}: E(E(m)) != first LENGTH bits of m", c.length);
     pass(nontrivial(c, 0), format!("eea/{}", len_class(c.length)))
+}
+
+/// the top of the LENGTH range, checked lightly (see `largest_lengths_light`)
+#[derive(Serialize, Deserialize, Hash, Debug, Clone)]
+pub struct Top {
+    pub eia: bool,
+    pub length: u32,
+}
+
+pub fn check_top_light(c: &Top) -> CaseResult {
+    let key = arr16(&expand_bytes(c.length as u64 ^ 0x70b, 16));
+    let (count, bearer, direction) = (0x1234_5678u32, 9u32, c.length % 2);
+    let l = ((c.length as u64 + 31) / 32) as usize;
+    let m = vec![0u32; l];
+    if c.eia {
+        return match catch(|| gm_zuc::eia::EIA::new(&key, count, bearer, direction).gen_mac(&m, c.length)) {
+            Ok(_) => pass(true, "eia/top-of-range"),
+            Err(p) => fail("entry=EIA::gen_mac input=valid outcome=panic", format!("length={} words={} -> {}", c.length, m.len(), p)),
+        };
+    }
+    let got = match catch(|| gm_zuc::eea::EEA::new(&key, count, bearer, direction).encrypt(&m, c.length)) {
+        Ok(v) => v,
+        Err(p) => return fail("entry=EEA::encrypt input=valid outcome=panic", format!("length={} words={} -> {}", c.length, m.len(), p)),
+    };
+    ensure!(got.len() == l, "entry=EEA::encrypt outcome=wrong-word-count", "LENGTH={} -> {} words, expected {}", c.length, got.len(), l);
+    let ks = rzuc::keystream(&key, &rzuc::eea3_iv(count, bearer, direction), 1024);
+    ensure!(got[..1024] == ks[..], "entry=EEA::encrypt outcome=wrong-output", "LENGTH={}: the first 1024 words differ from the keystream", c.length);
+    let keep = c.length % 32;
+    if keep != 0 {
+        ensure!(got[l - 1] & !(!0u32 << (32 - keep)) == 0, "entry=EEA::encrypt outcome=bits-beyond-length-set", "LENGTH={} last word {:08x}", c.length, got[l - 1]);
+    }
+    ensure!(got[l - 2] != 0 && got[l / 2] != 0, "entry=EEA::encrypt outcome=wrong-output", "LENGTH={}: keystream words missing near the end", c.length);
+    pass(true, "eea/top-of-range")
 }
 
 pub fn check_eia(c: &EC) -> CaseResult {
@@ -241,11 +275,22 @@ pub fn run(ctx: &Ctx) {
     ctx.exhaustive("eea_lengths_around_word_count_powers_of_two", "EEA3: every LENGTH within 34 bits of 32*w for w in {16, 32, ..., 2048} words (buffered / chunked keystream generation has its seams there)", around(1), check_eea);
     ctx.exhaustive("eia_lengths_around_word_count_powers_of_two", "EIA3: the same lengths", around(0), check_eia);
 
-    let huge: Vec<u32> = ctx.tier.pick(vec![(1u32 << 18) + 7], vec![(1 << 21) - 1, (1 << 21) + 33, (1 << 24) + 5, (1 << 26) + 31]);
+    let huge: Vec<u32> = ctx.tier.pick(vec![(1u32 << 18) + 7, (1 << 24) + 1, (1 << 24) + 33, (1 << 25) + 2], vec![(1 << 21) - 1, (1 << 21) + 33, (1 << 24) + 1, (1 << 24) + 5, (1 << 24) + 33, (1 << 25) + 2, (1 << 26) + 3, (1 << 26) + 31, (1 << 27) + 8, (1 << 28) + 16]);
     let huge2 = huge.clone();
-    let mk = |length: u32| EC { key: Hex(expand_bytes(length as u64 ^ 0xaaa5, 16)), count: !length, bearer: length % 32, direction: length % 2, length, seed: length as u64, surplus: 1, content: 0, explicit: vec![] };
-    ctx.listed("eea_huge_lengths", "EEA3 at a few very large LENGTH values (2^18+7 in the quick tier; up to 2^26+31 bits in the thorough tier): size arithmetic in 32-bit types", move || huge.iter().map(|l| mk(*l)).collect::<Vec<_>>(), check_eea);
+    let mk = |length: u32| EC { key: Hex(expand_bytes(length as u64 ^ 0xaaa5, 16)), count: !length, bearer: length % 32, direction: length % 2, length, seed: length as u64, surplus: 1, content: if length > 1 << 22 { 6 } else { 0 }, explicit: vec![] };
+    ctx.listed("eea_huge_lengths", "EEA3 at a few very large LENGTH values (2^18+7, 2^24+1, 2^24+33, 2^25+2 in the quick tier; up to 2^28+16 bits in the thorough tier; small residues modulo 32 above 2^24): size arithmetic in 32-bit or floating-point types", move || huge.iter().map(|l| mk(*l)).collect::<Vec<_>>(), check_eea);
     ctx.listed("eia_huge_lengths", "EIA3 at the same LENGTH values", move || huge2.iter().map(|l| mk(*l)).collect::<Vec<_>>(), check_eia);
+
+    // the largest LENGTH values the 32-bit parameter admits (messages of 2^27 words = 512 MiB). Quick tier: a light probe (no panic, word count,
+    // keystream prefix, trailing mask); thorough tier: the full comparison with the reference, one case at a time.
+    ctx.listed_seq("largest_lengths_light", "EEA3 and EIA3 at LENGTH = 2^32-1 and EEA3 at 2^32-32 on an all-zero 2^27-word message: no panic, ceil(LENGTH/32) words, the first 1024 words equal the reference keystream, bits beyond LENGTH clear; EIA3 returns (MAC not compared here: the per-bit reference costs minutes, see the thorough tier)", || {
+        vec![Top { eia: false, length: u32::MAX }, Top { eia: false, length: u32::MAX - 31 }, Top { eia: true, length: u32::MAX }]
+    }, check_top_light);
+    if ctx.tier.pick(false, true) {
+        let mk_top = |length: u32| EC { key: Hex(expand_bytes(length as u64 ^ 0xaaa6, 16)), count: length.rotate_left(7), bearer: length % 32, direction: length % 2, length, seed: length as u64, surplus: 0, content: 6, explicit: vec![] };
+        ctx.listed_seq("eea_largest_lengths", "EEA3 at LENGTH = 2^32-1 and 2^32-31 (the top of the 32-bit LENGTH parameter; 2^27-word messages, one case at a time): full comparison with the reference", move || vec![mk_top(u32::MAX), mk_top(u32::MAX - 30)], check_eea);
+        ctx.listed_seq("eia_largest_lengths", "EIA3 at LENGTH = 2^32-1: full comparison with the reference", move || vec![mk_top(u32::MAX)], check_eia);
+    }
 
     let maxbits = ctx.tier.pick(1u32 << 16, 1u32 << 20);
     let strat = move |lo: u32| {
